@@ -12,7 +12,8 @@ import (
 // for the returned expression and nothing else (copy propagation; the order of evaluation is unchanged). Rules that read
 // what a function returns then see the same tree whether or not the author named the value first. The expression nodes
 // keep their type information (it is keyed by node); the statement that defined the local disappears from the block.
-// Returns the number of returns rewritten.
+// The same is done for `c := e; if c { ... }` (c used nowhere else): the condition is what the author named.
+// Returns the number of statements rewritten.
 func (p *Program) canonicaliseReturns() int {
 	n := 0
 	for _, fd := range p.Funcs {
@@ -80,14 +81,56 @@ func (p *Program) canonicaliseReturns() int {
 				}
 			}
 		}
+		// `c := e; if c { ... }` with c used nowhere else is `if e { ... }`
+		foldCond := func(list *[]ast.Stmt) {
+			for i := 1; i < len(*list); i++ {
+				ifs, ok := (*list)[i].(*ast.IfStmt)
+				if !ok || ifs.Init != nil {
+					continue
+				}
+				names, values := singleDefs((*list)[i-1])
+				if len(names) != 1 {
+					continue
+				}
+				o := info.Defs[names[0]]
+				if o == nil || uses[o] != 1 {
+					continue
+				}
+				cond := ast.Unparen(ifs.Cond)
+				neg := false
+				if u, isNot := cond.(*ast.UnaryExpr); isNot && u.Op == token.NOT {
+					cond, neg = ast.Unparen(u.X), true
+				}
+				id, isID := cond.(*ast.Ident)
+				if !isID || info.Uses[id] != o {
+					continue
+				}
+				if neg {
+					u, direct := ifs.Cond.(*ast.UnaryExpr)
+					if !direct {
+						continue
+					}
+					u.X = &ast.ParenExpr{X: values[0]}
+				} else {
+					ifs.Cond = values[0]
+				}
+				ifs.If = (*list)[i-1].Pos()
+				*list = append((*list)[:i-1], (*list)[i:]...)
+				i--
+				n++
+			}
+		}
 		ast.Inspect(fd.Decl.Body, func(m ast.Node) bool {
 			switch x := m.(type) {
 			case *ast.BlockStmt:
 				fold(&x.List)
+				foldCond(&x.List)
 			case *ast.CaseClause:
 				fold(&x.Body)
+				foldCond(&x.Body)
 			case *ast.CommClause:
 				fold(&x.Body)
+				foldCond(&x.Body)
 			}
 			return true
 		})
